@@ -426,7 +426,9 @@ class Interp:
         if p.base in ('null', 'abs'):
             raise Unsupported('store through null/absolute pointer')
         if hasattr(self.dom, 'on_access'):
+            self.cur_store_value = v
             self.dom.on_access('store', p, ty, st, self)
+            self.cur_store_value = None
         k = self.dom.off_key(p.off)
         if not isinstance(k, int):
             # symbolic offset: weak update unless exact key known
